@@ -244,6 +244,32 @@ func (c *genCtx) gen(depth int, nn, incap bool) *Expr {
 			inner.Style = 2
 			outer := Group(rapid.SampledFrom([]string{"?", "*"}).Draw(c.t, "bracketmod"), inner)
 			outer.Style = 1
+			switch c.draw(0, 5, "modwrap") {
+			case 0:
+				// a modified term behind one more pair of parentheses, with a modifier outside: ( ( x+ ) )?
+				o := Group(outer.Mod, Group("", inner))
+				o.Style = c.draw(0, 1, "modwrapstyle") * 3
+				return o
+			case 1:
+				if !incap {
+					// ... behind a capture: ( @( x+ ) )?
+					plain := c.leaf()
+					in2 := Group(inner.Mod, plain)
+					in2.Style = 2
+					o := Group(outer.Mod, Cap(in2))
+					o.Style = c.draw(0, 5, "modwrapstyle2")
+					return o
+				}
+			case 2:
+				if c.o.WildLits && !c.o.NoLookNeg && !incap {
+					// ... behind a negation: ( ~( x+ ) )*
+					in2 := Group("+", c.leaf())
+					in2.Style = 2
+					o := Group(outer.Mod, Not(in2))
+					o.Style = c.draw(0, 5, "modwrapstyle3")
+					return o
+				}
+			}
 			if c.draw(0, 2, "doublemod") == 0 {
 				// the same modifier twice: [ x ]? , { x }*
 				plainInner := Group(outer.Mod, x)
